@@ -1,10 +1,13 @@
 import Nervus.Driver.Util
 import Nervus.Driver.OKey
+import Nervus.Driver.Crash
 open Nervus.Driver
 
 /-- stream registry: one line per stream (kept one-per-line so that merges are unions) -/
 def streams : List (String × Stream) := [
-  ("okey", OKeyStream.stream)
+  ("okey", OKeyStream.stream),
+  ("crash", CrashStream.stream),
+  ("fault", CrashStream.faultStream)
 ]
 
 def main (args : List String) : IO UInt32 := do
